@@ -1159,6 +1159,48 @@ func (w *c04World) stepRevSet(how string, r, t int, set []int, sig string) {
 
 // ---------------------------------------------------------------------------------- race
 
+// c04RaceSig classifies a surviving child structurally from the observed schedule (events "A:<op>" / "B:<op>").
+// F3 (known) is: the revocation never saw the child's parent-index entry — it was written after the revocation's
+// last pass over the parent — or it visited the child before the child's entry existed. If instead the index
+// entry was written while the revocation, having listed the parent's children, was still tearing down another
+// descendant of that parent (so its return to the parent had to find it), the survivor is a different defect.
+func c04RaceSig(evs []string, par, child int) string {
+	ps, cs := strconv.Itoa(par), strconv.Itoa(child)
+	tPar, firstList, mark := -1, -1, -1
+	visited := false
+	for i, e := range evs {
+		switch {
+		case e == "B:p:par:"+ps+":"+cs:
+			tPar = i
+		case e == "A:l:par:"+ps && firstList < 0:
+			firstList = i
+		case e == "A:p:id:"+ps:
+			mark = i
+		case e == "A:g:id:"+cs:
+			visited = true
+		}
+	}
+	if visited || tPar < 0 || mark < 0 || firstList < 0 {
+		return "F3:child-created-during-parent-revocation-survives"
+	}
+	// the revocation's last operation on another token before it turned to the parent itself
+	wEnd := -1
+	for i := mark - 1; i >= 0; i-- {
+		if !strings.HasPrefix(evs[i], "A:") {
+			continue
+		}
+		if evs[i] == "A:g:id:"+ps || evs[i] == "A:l:par:"+ps {
+			continue
+		}
+		wEnd = i
+		break
+	}
+	if firstList < tPar && tPar < wEnd {
+		return "race:child-indexed-during-descendant-teardown-survives"
+	}
+	return "F3:child-created-during-parent-revocation-survives"
+}
+
 // c04Sched decides which thread runs next: directed plans first, then seeded random choices.
 type c04Plan struct {
 	name string
@@ -1175,6 +1217,7 @@ func TestVerifC04Race(t *testing.T) {
 		nRandom = vh.EnvInt("VERIF_C04_RACE", 2000)
 	}
 	w := c04NewWorld(t, out)
+	teardown := false
 	isParPut := func(s string) bool { return strings.HasPrefix(s, "p:par:") }
 	isIDPut := func(s string) bool { return strings.HasPrefix(s, "p:id:") }
 	plans := []c04Plan{
@@ -1212,6 +1255,19 @@ func TestVerifC04Race(t *testing.T) {
 			}
 			return 0
 		}},
+		// the parent has an existing child: the revocation is parked at that child's marker write (it has listed
+		// the parent's children and is tearing one down), the whole creation runs, the revocation continues.
+		// The second listing of the parent must find the new child and revoke it.
+		{"create-during-sibling-teardown", func(a, b string, _ int) int {
+			if !teardown && a != "" && !strings.HasPrefix(a, "p:id:") {
+				return 0
+			}
+			teardown = true
+			if b != "" {
+				return 1
+			}
+			return 0
+		}},
 	}
 	total := len(plans) + nRandom
 	for ci := 0; ci < total; ci++ {
@@ -1221,7 +1277,7 @@ func TestVerifC04Race(t *testing.T) {
 		}
 		// forest: g (1) -> p (2) [-> sibling child (3) sometimes]; revoke g or p; create under p
 		sh := c04Shape{parent: []int{0, 1}, orphan: []bool{false, false}, cub: [][]int{nil, nil}, nlease: []int{0, 0}}
-		if cr.Chance(40) {
+		if cr.Chance(40) || (ci < len(plans) && plans[ci].name == "create-during-sibling-teardown") {
 			sh.parent = append(sh.parent, 2)
 			sh.orphan = append(sh.orphan, false)
 			sh.cub = append(sh.cub, nil)
@@ -1348,7 +1404,7 @@ func TestVerifC04Race(t *testing.T) {
 			// a child that exists and is not an orphan must be rejected
 			if p, ok := w.lastIDs[child]; ok && p >= 0 && !w.lastMark[child] && w.lastProbe[child] == "ok" {
 				viol = "child t" + strconv.Itoa(child) + " created under t" + strconv.Itoa(par) + " during the revocation of t" + strconv.Itoa(target) +
-					" is accepted and not an orphan after the revocation succeeded#F3:child-created-during-parent-revocation-survives"
+					" is accepted and not an orphan after the revocation succeeded#" + c04RaceSig(evs, par, child)
 			}
 		}
 		w.emit(d, "state")
